@@ -165,6 +165,17 @@ fn scenario() {
             }
             prog.push((false, held_b, held_m));
         }
+        // An acknowledgement accounted before its delivery is (the updates are meant to commute):
+        // the decrement comes first, the counters wrap and look full, and it is the late
+        // increment that brings them back below the limits.
+        if rng.gen_bool(0.25) {
+            let b = rng.gen_range(0..=max_bytes.min(16));
+            let m = rng.gen_range(1..=2);
+            let at = rng.gen_range(0..=prog.len());
+            prog.insert(at, (false, b, m));
+            let back = rng.gen_range(at + 1..=prog.len());
+            prog.insert(back, (true, b, m));
+        }
         programs.push(prog);
     }
     fc.inc(init_bytes, init_msgs);
